@@ -763,9 +763,26 @@ class Program:
             if a.vararg or a.kwarg or a.kwonlyargs or a.defaults or len(a.posonlyargs) + len(a.args) != len(call.args):
                 return None
             body = [st for st in h.node.body if not (isinstance(st, ast.Expr) and isinstance(st.value, ast.Constant))]
-            if not body or not isinstance(body[-1], ast.Return) or not isinstance(body[-1].value, ast.Dict):
+            if not body or not isinstance(body[-1], ast.Return):
                 return None
             d = body[-1].value
+            is_record = False
+            if isinstance(d, ast.Call) and isinstance(d.func, ast.Name) and not any(isinstance(x, ast.Starred) for x in d.args) and \
+                    all(k.arg for k in d.keywords):
+                # a record of the module (NamedTuple / dataclass without __init__ or __post_init__) built by the helper: its
+                # fields, by name
+                rc = self.resolve_name(h.module, d.func.id)
+                if isinstance(rc, ClassInfo) and (rc.is_dataclass or any(str(b).split('.')[-1] == 'NamedTuple' for b in rc.bases)) and \
+                        not any(self.lookup_method(rc, m_) for m_ in ('__init__', '__post_init__', '__new__')):
+                    fields_ = list(self.class_fields(rc))
+                    if len(d.args) + len(d.keywords) == len(fields_) and all(k.arg in fields_ for k in d.keywords):
+                        vals_ = dict(zip(fields_, d.args))
+                        vals_.update({k.arg: k.value for k in d.keywords})
+                        if set(vals_) == set(fields_):
+                            d = ast.Dict(keys=[ast.Constant(value=f_) for f_ in fields_], values=[vals_[f_] for f_ in fields_])
+                            is_record = any(str(b).split('.')[-1] == 'NamedTuple' for b in rc.bases) and 'nt' or 'dc'
+            if not isinstance(d, ast.Dict):
+                return None
             if not d.keys or not all(isinstance(k, ast.Constant) and isinstance(k.value, str) and k.value.isidentifier() for k in d.keys):
                 return None
             for st in body[:-1]:
@@ -801,7 +818,26 @@ class Program:
                     if isinstance(x, (ast.expr, ast.stmt)):
                         ast.copy_location(x, call)
                 ast.fix_missing_locations(st)
-            return h, pre, entries
+            return h, pre, entries, is_record
+
+        def record_uses_ok(caller: FuncInfo, name: str, fields_: List[str], kind: str) -> Optional[list]:
+            """every read of the record local is `name.<field>` or `**name._asdict()` (NamedTuple): the reads, else None"""
+            parents = {id(c_): p_ for p_ in ast.walk(caller.node) for c_ in ast.iter_child_nodes(p_)}
+            uses = [x for x in ast.walk(caller.node) if isinstance(x, ast.Name) and x.id == name and isinstance(x.ctx, ast.Load)]
+            out = []
+            for u in uses:
+                p_ = parents.get(id(u))
+                if isinstance(p_, ast.Attribute) and p_.value is u and isinstance(p_.ctx, ast.Load) and p_.attr in fields_:
+                    out.append(('field', u, p_, parents.get(id(p_))))
+                    continue
+                if kind == 'nt' and isinstance(p_, ast.Attribute) and p_.attr == '_asdict':
+                    c_ = parents.get(id(p_))
+                    k_ = parents.get(id(c_)) if isinstance(c_, ast.Call) and not c_.args and not c_.keywords else None
+                    if isinstance(k_, ast.keyword) and k_.arg is None and k_.value is c_:
+                        out.append(('asdict', u, k_, parents.get(id(k_))))
+                        continue
+                return None
+            return out
 
         changed_fns = []
         for caller in list(self.functions.values()):
@@ -823,8 +859,28 @@ class Program:
                     # d = h(...)
                     if isinstance(st, ast.Assign) and len(st.targets) == 1 and isinstance(st.targets[0], ast.Name):
                         r = dict_helper(caller, top)
+                        if r is not None and r[3]:
+                            # a record: only when the local is read by field / unpacked with _asdict, which then read the dict
+                            reads = record_uses_ok(caller, st.targets[0].id, [k for k, _v in r[1 + 1]], r[3])
+                            if reads is None or sum(1 for x in ast.walk(caller.node) if isinstance(x, ast.Name) and
+                                                    x.id == st.targets[0].id and isinstance(x.ctx, ast.Store)) != 1:
+                                r = None
+                            else:
+                                for kind_, u_, node_, holder_ in reads:
+                                    if kind_ == 'field':
+                                        new_ = ast.copy_location(ast.Subscript(value=u_, slice=ast.Constant(value=node_.attr), ctx=ast.Load()), node_)
+                                        for fld_, val_ in ast.iter_fields(holder_):
+                                            if val_ is node_:
+                                                setattr(holder_, fld_, new_)
+                                            elif isinstance(val_, list):
+                                                for k2_, item_ in enumerate(val_):
+                                                    if item_ is node_:
+                                                        val_[k2_] = new_
+                                    else:
+                                        node_.value = u_
+                                ast.fix_missing_locations(caller.node)
                         if r is not None:
-                            h, pre, entries = r
+                            h, pre, entries = r[:3]
                             st.value = ast.copy_location(ast.Dict(keys=[ast.Constant(value=k) for k, _v in entries],
                                                                   values=[v for _k, v in entries]), top)
                             ast.fix_missing_locations(st)
@@ -839,10 +895,13 @@ class Program:
                             if kw.arg is None:
                                 if not all(pure(k2.value) for k2 in top.keywords[:ki]):
                                     break
-                                r = dict_helper(caller, kw.value)
-                                if r is None:
+                                kwv = kw.value
+                                via_asdict = isinstance(kwv, ast.Call) and isinstance(kwv.func, ast.Attribute) and \
+                                    kwv.func.attr == '_asdict' and not kwv.args and not kwv.keywords
+                                r = dict_helper(caller, kwv.func.value if via_asdict else kwv)
+                                if r is None or (via_asdict and r[3] != 'nt') or (not via_asdict and r[3]):
                                     break
-                                h, pre, entries = r
+                                h, pre, entries = r[:3]
                                 if {k for k, _v in entries} & {k2.arg for k2 in top.keywords if k2.arg}:
                                     break
                                 top.keywords[ki:ki + 1] = [ast.keyword(arg=k, value=v) for k, v in entries]
